@@ -166,7 +166,10 @@ def observe(sb, case, task, res, p, launcher, pwd):
         out.append({'text': text if i == 0 else None, 'parsed': [k, envr.get(k)] if envr is not None else 'not-run'})
     # kinds of the parts of the task environment section, in order (export values may span lines:
     # exports are counted by the keys of the description)
-    ni, ei = text.find('\n. '), text.find('\nexport ')
+    # (the line that sources a named environment names a script under <pilot sandbox>/env/; a value of the
+    # description that merely contains a newline followed by `. ` is not such a line)
+    mni = re.search(r'\n\. \S*/env/rp_named_env\.', text)
+    ni, ei = (mni.start() if mni else -1), text.find('\nexport ')
     nexp = ['export'] * len(case['env'])
     if ni < 0:             kinds = nexp
     elif ei < 0 or ni < ei: kinds = ['named'] + nexp
